@@ -15,8 +15,21 @@ package transpiler
 // them (a selector such as {service_name="api"} has exactly one), and they are in
 // place before the label conditions are added.
 //@ spec fn andOfAll(c sql.SQLCondition, ms []sql.SQLCondition) bool = typeis(c, "*sql.LogicalOp") && unbox(c, "*sql.LogicalOp").fn == "and" && len(unbox(c, "*sql.LogicalOp").clauses) == len(ms)
-//@ func (*StreamSelectorPlanner).getMatchers
+// Every matcher of the selector becomes a condition of its own kind: a matcher on a
+// pseudo-label / service_name a row condition, a matcher on an ordinary label a
+// key/value condition - whatever came before it in the selector.
+//@ spec fn profPseudo(n string) bool = n == "__name__" || n == "__period_type__" || n == "__period_unit__" || n == "__sample_type__" || n == "__sample_unit__" || n == "__profile_type__" || n == "service_name"
+//@ func (*StreamSelectorPlanner).getArrayExists
 //@   modifies nothing
+//@ func (github.com/metrico/qryn/reader/prof/parser.Str).Unquote
+//@   modifies nothing
+//@ func (*StreamSelectorPlanner).getMatchers [C17]
+//@   flag checks=-index,-assert
+//@   modifies nothing
+//@   loop 1:
+//@     modifies nothing
+//@     step an-ordinary-label-matcher-becomes-a-label-condition: !profPseudo(selector.Name) ==> len(kvClauses) == prev(len(kvClauses)) + 1 && len(globalClauses) == prev(len(globalClauses))
+//@     step a-pseudo-label-matcher-becomes-a-row-condition: profPseudo(selector.Name) ==> len(globalClauses) == prev(len(globalClauses)) + 1 && len(kvClauses) == prev(len(kvClauses))
 //@ func (*StreamSelectorPlanner).Process [C13,C17]
 //@   flag checks=-index,-assert
 //@   check a-single-pseudo-label-matcher-is-not-dropped: result1 == nil && len(matchers.globalMatchers) > 0 && len(matchers.kvMatchers) == 0 ==> len(whereArgs) == 1 && andOfAll(whereArgs[0], matchers.globalMatchers)
@@ -54,6 +67,7 @@ package transpiler
 //@   ensures not-equal: op == "!=" ==> result1 == nil && cmpFieldVal(result0, "!=", field, val)
 //@   ensures matches: op == "=~" ==> result1 == nil && cmpWithOne(result0, "==")
 //@   ensures matches-not: op == "!~" ==> result1 == nil && cmpWithOne(result0, "!=")
+//@   ensures a-clause-or-an-error: result1 == nil ==> result0 != nil
 //@   ensures other-operators-rejected: op != "=" && op != "!=" && op != "=~" && op != "!~" ==> result1 != nil
 //@ func (*StreamSelectorPlanner).getMatcherClause$1 [C17]
 //@   flag checks=-index,-assert
